@@ -137,7 +137,11 @@ ParseVerdict(c) ==
   \o (IF MustRefuse(c.fmt, r) /\ ~c.evcap /\ ~EvPrefix(R, r.ev, out)
       THEN <<P \o ":events reported beyond the offending item">> ELSE <<>>)
   \o (IF Accepted(c) /\ ~c.evcap /\ r.class \in {"complete", "grey", "invalid", "lex", "unsupported"} /\ ~(cr.ok /\ cr.stk = <<>>)
-      THEN <<"C09:contract:" \o (IF cr.ok THEN "unbalanced at end" ELSE cr.why)>> ELSE <<>>)
+      THEN <<"C09:contract:" \o (IF cr.ok THEN "unbalanced at end" ELSE cr.why)>>
+           \* a valid document is read with its value only if what is reported is a stream a consumer can take
+           \o (IF r.class = "complete" THEN <<P \o ":the events reported for a valid document are no well-formed stream ("
+                                              \o (IF cr.ok THEN "unbalanced at end" ELSE cr.why) \o ")">> ELSE <<>>)
+      ELSE <<>>)
   \o (IF IsDecEntry(c.entry) /\ r.class = "complete" /\ c.outcome = "ok" /\ ~c.evcap /\ ~TrailingBareNumber(c)
       THEN (IF NextWrong(c, r, R) # {} THEN <<"C18:a Next call did not deliver exactly the next value">> ELSE <<>>)
            \o (IF Accepted(c) /\ Len(c.calls) # r.done + 1
@@ -356,6 +360,16 @@ GoRtVerdict(c) ==
   ELSE IF ~RoundTripOK(R, T, v, x.r) THEN <<"C11:unfolded value differs from the folded one">> ELSE <<>>
 
 \* ---- kind "unfold" (C13) --------------------------------------------------------------------
+\* generic data keeps the Go type of the event that delivered an integer (OnInt -> int, OnUint8 / OnByte -> uint8, ...):
+\* want = the stream's value (leaves are event records), got = the Plain projection of the result (leaves carry the Go kind)
+RECURSIVE IntKindsAgree(_, _)
+IntKindsAgree(want, got) ==
+  CASE want.k = "arr" -> got.k # "arr" \/ Len(got.v) # Len(want.v) \/ \A j \in 1..Len(want.v) : IntKindsAgree(want.v[j], got.v[j])
+    [] want.k = "obj" -> got.k # "obj" \/ Len(got.v) # Len(want.v)
+                         \/ \A j \in 1..Len(want.v) : \A l \in 1..Len(got.v) : got.v[l].key = want.v[j].key => IntKindsAgree(want.v[j].val, got.v[l].val)
+    [] want.k = "int" -> got.k # "int" \/ got.ty = (IF want.ty = "byte" THEN "uint8" ELSE want.ty)
+    [] OTHER -> TRUE
+
 UnfoldVerdict(c) ==
   LET x == c.extra  T == x.T
       svs == Values(c.stream) IN
@@ -366,7 +380,9 @@ UnfoldVerdict(c) ==
   ELSE LET want == Exp(T, x.v0, svs[1]) IN
        IF HasUnspec(want) THEN <<"INFO:unspecified">>
        ELSE IF x.stage # "" THEN <<"C13:matching stream not accepted (" \o x.err \o ")">>
-       ELSE IF ~PlainMatch({"f32as64"}, want, T, x.r) THEN <<"C13:assigned value differs from the stream's value">> ELSE <<>>
+       ELSE IF ~PlainMatch({"f32as64"}, want, T, x.r) THEN <<"C13:assigned value differs from the stream's value">>
+       ELSE IF T.k = "iface" /\ ~IntKindsAgree(want, Plain(T, x.r))
+            THEN <<"C13:generic data holds an integer of another Go type than the event that delivered it">> ELSE <<>>
 
 \* ---- kind "keycache" (C20) ------------------------------------------------------------
 (* The access history comes from SFKeyCache (TLC walks the LRU model and    *)
